@@ -812,6 +812,21 @@ class AutoSerialize:
                 is_all_numeric = False
 
             if is_all_numeric:
+                arr = np.asarray(value)
+                # The ndarray encoding must be lossless: an int/float mixture becomes float64,
+                # which cannot hold integers beyond 2**53 (object arrays cannot be stored at all)
+                if arr.dtype == object or (
+                    arr.dtype.kind == "f"
+                    and any(
+                        isinstance(v, (int, np.integer))
+                        and not isinstance(v, (bool, np.bool_))
+                        and abs(int(v)) > 2**53
+                        for v in value
+                    )
+                ):
+                    is_all_numeric = False
+
+            if is_all_numeric:
                 group.attrs["_sequence_encoding"] = "ndarray"
                 arr = np.asarray(value)
                 # Store in a single dataset named 'values'
